@@ -275,11 +275,22 @@ impl Interposer for Attacker {
 
 fn mutations_for(rng: &mut Rng, spec: &TreeSpec, op: &Op) -> Vec<Mutation> {
     // entries that lie on the lexical path of the operation or that are links come first
-    let path: &[u8] = match op {
-        Op::Resolve { path, .. } | Op::OpenSubpath { path, .. } | Op::Readlink { path } => path,
-        _ => b"",
+    let (path, path2): (&[u8], &[u8]) = match op {
+        Op::Resolve { path, .. } | Op::OpenSubpath { path, .. } | Op::Readlink { path } => (path, b""),
+        Op::Mkdir { path, .. }
+        | Op::Mknod { path, .. }
+        | Op::CreateFile { path, .. }
+        | Op::MkdirAll { path, .. }
+        | Op::RemoveFile { path }
+        | Op::RemoveDir { path }
+        | Op::RemoveAll { path } => (path, b""),
+        Op::Symlink { path, .. } => (path, b""),
+        Op::Hardlink { path, target } => (path, target),
+        Op::Rename { src, dst, .. } => (src, dst),
+        _ => (b"", b""),
     };
-    let comps: Vec<&[u8]> = path.split(|c| *c == b'/').filter(|c| !c.is_empty()).collect();
+    let comps: Vec<&[u8]> =
+        path.split(|c| *c == b'/').chain(path2.split(|c| *c == b'/')).filter(|c| !c.is_empty()).collect();
     let mut scored: Vec<(usize, &tree::Entry)> = spec
         .entries
         .iter()
@@ -353,6 +364,11 @@ fn run_one(
     s.push_str(&cfg_line(&root, cc.emulated, cc.rflags));
     s.push('\n');
     s.push_str(extra);
+    let host_mode = suite == "attack-mut";
+    if host_mode {
+        enrich_host(&top, cc.spec);
+    }
+    let host_before = if host_mode { Some(host_snapshot(&top)) } else { None };
     let outside_before = if check_outside { Some(outside_snapshot(&top)) } else { None };
     let (ip, created, reads_out) = mk(&top, &labels);
     let before = ops::fd_table();
@@ -407,8 +423,38 @@ fn run_one(
             s.push_str("outside same\n");
         }
     }
-    // did a reported success really happen?
-    if let Some(line) = success_postcondition(&root, cc.op, &outcome) {
+    if let (Some(b), Outcome::Fd(fd)) = (&host_before, &outcome) {
+        // a descriptor handed back by the operation must not be one of the host's objects
+        let mut st: libc::stat = unsafe { std::mem::zeroed() };
+        unsafe { libc::fstat(fd.as_raw_fd(), &mut st) };
+        let topdev = fs::metadata(&top).map(|m| m.dev()).unwrap_or(0);
+        match b.iter().find(|x| x.5 == st.st_ino && st.st_dev == topdev) {
+            Some(x) => {
+                s.push_str(&format!("hostfd OUT {} {}\n", x.1, fmt::hex(&x.0)));
+                post_ok = false;
+            }
+            None => s.push_str("hostfd in\n"),
+        }
+    }
+    if let Some(b) = host_before {
+        let a = host_snapshot(&top);
+        if a != b {
+            // the first entry that differs
+            let gone = b.iter().find(|x| !a.contains(x));
+            let new = a.iter().find(|x| !b.contains(x));
+            let show = |x: Option<&(Vec<u8>, char, u32, u64, Vec<u8>, u64)>| match x {
+                Some(x) => format!("{} {} {:o} {}", x.1, fmt::hex(&x.0), x.2, x.3),
+                None => "-".into(),
+            };
+            s.push_str(&format!("host CHANGED was=[{}] now=[{}]\n", show(gone), show(new)));
+            post_ok = false;
+        } else {
+            s.push_str("host same\n");
+        }
+    }
+    // did a reported success really happen?  (not asked when an attacker rearranged the tree meanwhile)
+    if host_mode {
+    } else if let Some(line) = success_postcondition(&root, cc.op, &outcome) {
         s.push_str(&line);
         s.push('\n');
     }
@@ -444,6 +490,45 @@ fn outside_snapshot(top: &Path) -> Vec<(Vec<u8>, char, u32, u64, Vec<u8>)> {
         .into_iter()
         .filter(|(p, _)| !(p.starts_with(b"root/") || p == b"root"))
         .map(|(p, e)| (p, e.kind, e.mode, e.size, e.body))
+        .collect()
+}
+
+/// The host side for the attacked mutating operations: `outside/dir` offers, under the names of the tree's entries, files,
+/// a directory with a file in it and a link — whatever name the operation applies below a directory of the tree, a library
+/// that lets itself be led into `outside/dir` finds something to remove, replace or collide with there.
+fn enrich_host(top: &Path, spec: &TreeSpec) {
+    let dir = top.join("outside/dir");
+    let mut names: Vec<Vec<u8>> =
+        spec.entries.iter().map(|e| e.path.rsplit(|c| *c == b'/').next().unwrap_or(b"").to_vec()).filter(|n| !n.is_empty()).collect();
+    names.sort();
+    names.dedup();
+    for (i, n) in names.iter().enumerate() {
+        let p = dir.join(OsStr::from_bytes(n));
+        match i % 3 {
+            0 => {
+                let _ = fs::write(&p, b"HOST");
+            }
+            1 => {
+                let _ = fs::create_dir(&p);
+                let _ = fs::write(p.join("inner"), b"HOST");
+            }
+            _ => {
+                let _ = std::os::unix::fs::symlink("../secret", &p);
+            }
+        }
+    }
+    let _ = fs::create_dir(dir.join("sub"));
+    let _ = fs::write(dir.join("sub/y"), b"HOST");
+}
+
+/// what was never inside the root and is not the attacker's own doing (`outside/moved` is where the attacker parks tree
+/// entries: it and everything below it was inside the root)
+fn host_snapshot(top: &Path) -> Vec<(Vec<u8>, char, u32, u64, Vec<u8>, u64)> {
+    tree::snapshot(top)
+        .into_iter()
+        .filter(|(p, _)| !(p.starts_with(b"root/") || p == b"root" || p == b"outside/moved" || p.starts_with(b"outside/moved/")))
+        // (the modification time of `outside` changes when the attacker renames into it: not compared)
+        .map(|(p, e)| (p, e.kind, e.mode, e.size, e.body, e.ino))
         .collect()
 }
 
@@ -636,6 +721,139 @@ pub fn suite_attack(ctx: &mut Ctx, seed: u64, n: usize, per_case: usize) {
                     (Some(Box::new(a) as Box<dyn Interposer>), created, reads_out)
                 };
                 let (text, _, _) = run_one(ctx, &cc, &id, "attack", &extra, &mut mk, false);
+                ctx.out.write_all(text.as_bytes()).unwrap();
+            }
+        }
+    }
+}
+
+/// hand-made mutating operations for the attacker grid (every boundary x every mutation is tried on these)
+fn classic_mut_cases() -> Vec<(TreeSpec, Op)> {
+    let mk = |ents: &[(&[u8], Kind)]| {
+        let mut spec = TreeSpec::default();
+        for (p, k) in ents {
+            spec.entries.push(tree::Entry { path: p.to_vec(), kind: k.clone(), mode: 0o755 });
+        }
+        spec
+    };
+    let t = mk(&[
+        (b"a", Kind::Dir),
+        (b"a/b", Kind::Dir),
+        (b"a/b/f1", Kind::File),
+        (b"a/b/f2", Kind::File),
+        (b"a/b/sub", Kind::Dir),
+        (b"a/b/sub/y", Kind::File),
+        (b"a/c", Kind::Dir),
+        (b"a/l", Kind::Link(b"../a/b".to_vec())),
+        (b"f", Kind::File),
+        (b"x", Kind::Dir),
+        (b"x/inner", Kind::File),
+    ]);
+    vec![
+        (t.clone(), Op::RemoveAll { path: b"a".to_vec() }),
+        (t.clone(), Op::RemoveAll { path: b"a/b".to_vec() }),
+        (t.clone(), Op::RemoveAll { path: b"a/l/sub".to_vec() }),
+        (t.clone(), Op::RemoveAll { path: b"x".to_vec() }),
+        (t.clone(), Op::MkdirAll { path: b"a/l/n1/n2/n3".to_vec(), mode: 0o755 }),
+        (t.clone(), Op::MkdirAll { path: b"a/b/sub/../sub/n1/n2".to_vec(), mode: 0o700 }),
+        (t.clone(), Op::Rename { src: b"a/b/f1".to_vec(), dst: b"a/c/g".to_vec(), flags: 0 }),
+        (t.clone(), Op::Rename { src: b"a/b/sub".to_vec(), dst: b"x/sub".to_vec(), flags: 0 }),
+        (t.clone(), Op::Rename { src: b"a/b/f1".to_vec(), dst: b"x/inner".to_vec(), flags: libc::RENAME_EXCHANGE }),
+        (t.clone(), Op::CreateFile { path: b"a/l/new".to_vec(), flags: libc::O_WRONLY, mode: 0o644 }),
+        (t.clone(), Op::CreateFile { path: b"a/b/f1".to_vec(), flags: libc::O_WRONLY | libc::O_TRUNC, mode: 0o644 }),
+        (t.clone(), Op::RemoveFile { path: b"a/b/f1".to_vec() }),
+        (t.clone(), Op::RemoveFile { path: b"a/l/sub/y".to_vec() }),
+        (t.clone(), Op::RemoveDir { path: b"a/c".to_vec() }),
+        (t.clone(), Op::Mkdir { path: b"a/b/sub/nd".to_vec(), mode: 0o755 }),
+        (t.clone(), Op::Symlink { path: b"a/b/sub/ln".to_vec(), target: b"/etc/passwd".to_vec() }),
+        (t.clone(), Op::Hardlink { path: b"a/c/hl".to_vec(), target: b"a/b/f2".to_vec() }),
+        (t, Op::Mknod { path: b"a/b/sub/fifo".to_vec(), mode: libc::S_IFIFO | 0o644, dev: 0, ptype: 0 }),
+    ]
+}
+
+/// C03 under attack, on the real filesystem: a mutating operation runs while the interposer performs one of the attacker's
+/// mutations immediately before a chosen system call of the operation (every boundary of the unperturbed run is tried,
+/// permanently or undone one call later).  Whatever the operation then does, nothing that was never inside the root may
+/// change: the host side (`outside/**` apart from the entries the attacker itself moved out) is compared before and after.
+pub fn suite_attack_mut(ctx: &mut Ctx, seed: u64, n: usize, per_case: usize) {
+    let mut rng = Rng::new(seed);
+    let classics = classic_mut_cases();
+    for i in 0..n {
+        let mut crng = rng.fork();
+        let case_seed = crng.0;
+        let (spec, op) = if i < classics.len() {
+            classics[i].clone()
+        } else {
+            // a generated operation that does something when nobody interferes
+            let mut found = None;
+            for _ in 0..40 {
+                let spec = TreeSpec::generate(&mut crng, 12);
+                let class = *crng.pick(&[gen::OpClass::Mutating, gen::OpClass::Mutating, gen::OpClass::RemoveAll, gen::OpClass::MkdirAll]);
+                let op = gen::gen_op_in(&mut crng, &spec, class);
+                // never block on a fifo, never an operation with creation flags that hang
+                let cc = CaseCtx { spec: &spec, op: &op, emulated: true, rflags: ResolverFlags::empty(), seed: case_seed };
+                let mut sink = Ctx { work: ctx.work.clone(), out: Box::new(std::io::sink()), no_openat2: ctx.no_openat2, unpriv: false };
+                let (text, _, _) = run_one(&mut sink, &cc, "probe", "attack-mut", "", &mut no_interposer, false);
+                if text.contains("\nres ok") {
+                    found = Some((spec, op));
+                    break;
+                }
+            }
+            match found {
+                Some(x) => x,
+                None => continue,
+            }
+        };
+        let rflags = ResolverFlags::empty();
+        let backends: &[bool] = if ctx.no_openat2 { &[true] } else { &[true, false] };
+        for &emu in backends {
+            let cc = CaseCtx { spec: &spec, op: &op, emulated: emu, rflags, seed: case_seed };
+            let b = if emu { "e" } else { "k" };
+            let (text, ncalls, _) = run_one(ctx, &cc, &format!("{i}{b}-base"), "attack-mut", "attack none\n", &mut no_interposer, false);
+            ctx.out.write_all(text.as_bytes()).unwrap();
+            // the mutations that lead somewhere else: links to the host, moves, exchanges (not the ones that move host
+            // objects into the root, which makes them fair game)
+            let muts: Vec<Mutation> = mutations_for(&mut crng, &spec, &op)
+                .into_iter()
+                .filter(|m| !matches!(m, Mutation::ExchangeWithHost(_) | Mutation::MoveOutDeep(_) | Mutation::MoveToDeletedSibling(_)))
+                .collect();
+            let mut grid: Vec<(usize, usize, bool)> = Vec::new();
+            for (mi, _) in muts.iter().enumerate() {
+                for k in 0..=ncalls {
+                    grid.push((mi, k, false));
+                    if k < ncalls {
+                        grid.push((mi, k, true));
+                    }
+                }
+            }
+            while grid.len() > per_case {
+                let j = crng.below(grid.len());
+                grid.swap_remove(j);
+            }
+            grid.sort();
+            for (mi, k, flip) in grid {
+                let m = muts[mi].clone();
+                let extra = format!("attack at={k} flip={} {}\n", flip as u8, m.line());
+                let id = format!("{i}{b}-m{mi}k{k}{}", if flip { "f" } else { "" });
+                let mut mk = |top: &Path, labels: &Labels| {
+                    let created = Rc::new(RefCell::new(Vec::new()));
+                    let reads_out = Rc::new(RefCell::new(Vec::new()));
+                    let a = Attacker {
+                        top: top.to_path_buf(),
+                        at: k,
+                        undo_at: if flip { Some(k + 1) } else { None },
+                        m: m.clone(),
+                        done: false,
+                        undone: false,
+                        created: created.clone(),
+                        inside: labels.0.keys().cloned().collect(),
+                        reads_out: reads_out.clone(),
+                        names: Vec::new(),
+                        trap: None,
+                    };
+                    (Some(Box::new(a) as Box<dyn Interposer>), created, reads_out)
+                };
+                let (text, _, _) = run_one(ctx, &cc, &id, "attack-mut", &extra, &mut mk, false);
                 ctx.out.write_all(text.as_bytes()).unwrap();
             }
         }
